@@ -50,6 +50,7 @@ type ssoP struct {
 	Decl   string // "" no | yes
 	Quote  string // "" double | single
 	Attrs  string // "" fwd | rev
+	Lex    string // purely lexical variants of the same document (lexStyles): "" | cdata | charref | attr-charref | comments | pi | bom | pair | tagws | decl-noenc | decl-standalone | decl-single | decl-lowerenc | all
 	Frac   string // fractional digits of IssueInstant: "" 6 | 0 | 3 | 9
 	// --- transport
 	Transport string // "" redirect | post | post-query (POST with all parameters in the query) | get-body?
@@ -63,6 +64,9 @@ type ssoP struct {
 	Order     string // "" std | sig-first
 	Encoding  string // SAMLEncoding: "" absent | deflate | unknown | case
 	B64       string // "" ok | bad-alphabet | bad-padding
+	B64Wrap   string // base64 line structure (RFC 2045 allows line breaks; POST binding only): "" one line | 76 | 64crlf
+	Flate     string // DEFLATE block structure on the Redirect binding (msg.DeflateKind): "" | stored | huffman | fast | flushed | chunks
+	CType     string // Content-Type spelling of a POST: "" plain | charset | mixed-case | charset-quoted
 	Deflate   string // "" ok | truncated
 	XML       string // "" ok | ill-formed | root-logout | root-response | wrong-ns | empty-doc
 	Special   string // "" | sigalg-without-signature | empty-samlrequest | no-samlrequest
@@ -432,6 +436,7 @@ func ssoBuild(p ssoP) (*world.World, *http.Request, *ssoTruth) {
 	if p.Quote == "single" {
 		st.Quote = '\''
 	}
+	lexStyle(&st, p.Lex)
 	relay := "relay-token-1"
 	switch p.Relay {
 	case "none":
@@ -503,7 +508,7 @@ func ssoBuild(p ssoP) (*world.World, *http.Request, *ssoTruth) {
 		if transport != "redirect" {
 			panic("ssoBuild: redirect signature needs the redirect transport (POST only through forge operators)")
 		}
-		fs.raw = msg.Redirect{XML: doc, RelayState: relay, Pct: pct, Encoding: encParam, Order: p.Order, SigAlg: alg, Key: signer}.RawQuery()
+		fs.raw = msg.Redirect{XML: doc, RelayState: relay, Pct: pct, Encoding: encParam, Order: p.Order, SigAlg: alg, Key: signer, Flate: p.Flate}.RawQuery()
 		t.SigValue = true
 		if p.Forge != "" {
 			forgeRedirect(fs)
@@ -518,7 +523,7 @@ func ssoBuild(p ssoP) (*world.World, *http.Request, *ssoTruth) {
 		if redirectSigned {
 			raw = fs.raw
 		} else {
-			raw = msg.Redirect{XML: doc, RelayState: relay, Pct: pct, Encoding: encParam, Order: p.Order}.RawQuery()
+			raw = msg.Redirect{XML: doc, RelayState: relay, Pct: pct, Encoding: encParam, Order: p.Order, Flate: p.Flate}.RawQuery()
 		}
 		if p.Deflate == "truncated" {
 			d := msg.Deflate(doc)
@@ -570,6 +575,12 @@ func ssoBuild(p ssoP) (*world.World, *http.Request, *ssoTruth) {
 			}
 			t.Decodable, t.Conformant = false, false
 		}
+		switch p.B64Wrap {
+		case "76":
+			b64 = strings.TrimRight(wrapN(b64, 76), "\n")
+		case "64crlf":
+			b64 = strings.ReplaceAll(wrapN(b64, 64), "\n", "\r\n")
+		}
 		form.Set("SAMLRequest", b64)
 		if relay != "" {
 			form.Set("RelayState", relay)
@@ -606,7 +617,9 @@ func ssoBuild(p ssoP) (*world.World, *http.Request, *ssoTruth) {
 			req = world.NewRequest("POST", host, path, nil, "application/x-www-form-urlencoded", []byte(form.Encode()+"&x=%zz"))
 			t.Decodable, t.Conformant = false, false
 		} else if transport == "post" {
-			req = world.NewRequest("POST", host, path, nil, "application/x-www-form-urlencoded", []byte(form.Encode()))
+			ctype := map[string]string{"": "application/x-www-form-urlencoded", "charset": "application/x-www-form-urlencoded; charset=UTF-8",
+				"mixed-case": "Application/X-WWW-Form-URLEncoded", "charset-quoted": "application/x-www-form-urlencoded;charset=\"utf-8\""}[p.CType]
+			req = world.NewRequest("POST", host, path, nil, ctype, []byte(form.Encode()))
 		} else {
 			// parameters in the query of a POST: the handler classifies this as Redirect binding (payload must be deflated)
 			form.Set("SAMLRequest", base64.StdEncoding.EncodeToString(msg.Deflate(doc)))
@@ -651,6 +664,33 @@ func ssoBuild(p ssoP) (*world.World, *http.Request, *ssoTruth) {
 		t.Conformant = false
 	}
 	return w, req, t
+}
+
+// lexVals: the purely lexical serialisation variants (xt.Style); every one of them leaves the document's information set unchanged.
+var lexVals = []string{"", "cdata", "charref", "attr-charref", "comments", "pi", "bom", "pair", "tagws", "decl-noenc", "decl-standalone", "decl-single", "decl-lowerenc", "all"}
+
+func lexStyle(st *xt.Style, lex string) {
+	switch lex {
+	case "":
+	case "cdata", "charref":
+		st.TextForm = lex
+	case "attr-charref":
+		st.AttrForm = "charref"
+	case "comments", "pi":
+		st.Misc = lex
+	case "bom":
+		st.BOM = true
+	case "pair":
+		st.EmptyPair = true
+	case "tagws":
+		st.TagWS = true
+	case "decl-noenc", "decl-standalone", "decl-single", "decl-lowerenc":
+		st.Decl, st.DeclForm = true, strings.TrimPrefix(lex, "decl-")
+	case "all":
+		st.TextForm, st.AttrForm, st.Misc, st.EmptyPair, st.TagWS, st.Decl, st.DeclForm = "cdata", "charref", "both", true, true, true, "standalone"
+	default:
+		panic("lexStyle: " + lex)
+	}
 }
 
 func wrapN(s string, n int) string {
@@ -792,6 +832,14 @@ func (p *ssoP) set(name, val string) {
 		p.Quote = val
 	case "Attrs":
 		p.Attrs = val
+	case "Lex":
+		p.Lex = val
+	case "B64Wrap":
+		p.B64Wrap = val
+	case "Flate":
+		p.Flate = val
+	case "CType":
+		p.CType = val
 	case "Frac":
 		p.Frac = val
 	case "Transport":
